@@ -95,13 +95,13 @@ theorem one_attempt_in_flight_per_message {pre : List (Nat × Nat)} (hpre : (pre
 section composed
 open Slimta.QM
 open Slimta.Sched (sIds)
-variable {fb : Bool} {pre : List (Nat × Nat)} {rc : Nat → List Rcpt} {nn : Nat → Bool}
+variable {fb : Bool} {pre : List (Nat × Nat)} {rc : Nat → List Rcpt} {nn : Nat → Bool} {att : Nat → Nat}
 
 /-- **Every hand-off is for exactly the unsettled recipients**, under every interleaving: whenever a step of the composed machine
     hands message `id` to the relay (enqueue's own hand-off or a `_dequeue` task, whatever caused it), the recipients of that
     attempt are the ones outstanding at that moment, and none of them has been reported delivered or failed for good before. -/
 theorem handoff_is_for_the_unsettled (hpre : (pre.map (·.1)).Nodup) (hrc : ∀ id ∈ pre.map (·.1), (rc id).Nodup) {q q' : State}
-    (hr : Reach fb (start pre rc nn) q) {l : Label} (hc : calm q l) (hs : step fb q l = some q')
+    (hr : Reach fb (startAt pre rc nn att) q) {l : Label} (hc : calm q l) (hs : step fb q l = some q')
     (id : Nat) (rs : List Rcpt) (a : Nat) (hnew : q'.handed = (id, rs, a) :: q.handed) :
     rs = outstanding q.s.rem q id ∧ ∀ x ∈ rs, x ∉ q.delivered id ∧ x ∉ (q.failed id).map Prod.fst := by
   have h := reach_inv hpre hrc hr
@@ -191,7 +191,7 @@ theorem handoff_is_for_the_unsettled (hpre : (pre.map (·.1)).Nodup) (hrc : ∀ 
     | remove _ => simp only [Option.some.injEq] at hs; subst hs; exact absurd hnew.symm (List.cons_ne_self _ _)
 
 /-- Part 2 carried to the composed machine: its scheduler component runs the scheduler model. -/
-theorem one_attempt_in_flight_composed (hpre : (pre.map (·.1)).Nodup) {q : QM.State} (hr : QM.Reach fb (QM.start pre rc nn) q) :
+theorem one_attempt_in_flight_composed (hpre : (pre.map (·.1)).Nodup) {q : QM.State} (hr : QM.Reach fb (QM.startAt pre rc nn att) q) :
     q.s.inflight.Nodup ∧ ∀ id ∈ q.s.inflight, (∀ t, (t, id) ∉ q.s.queued) ∧ id ∉ Sched.dIds q.s :=
   C12.one_attempt_in_flight hpre (QM.reach_sched hr)
 
@@ -209,12 +209,12 @@ theorem step_handed {q q' : State} {l : Label} (hs : step fb q l = some q') :
     delivered (`C04.restarted_queue_never_loses` starts the machine on the recipients not yet marked): in every reachable state every
     hand-off made so far, of any message, was for recipients among those the message was accepted with. -/
 theorem handed_within_accepted (hpre : (pre.map (·.1)).Nodup) (hrc : ∀ id ∈ pre.map (·.1), (rc id).Nodup) {q : State}
-    (hr : Reach fb (start pre rc nn) q) : ∀ e ∈ q.handed, ∃ r, q.orig e.1 = some r ∧ ∀ x ∈ e.2.1, x ∈ r := by
+    (hr : Reach fb (startAt pre rc nn att) q) : ∀ e ∈ q.handed, ∃ r, q.orig e.1 = some r ∧ ∀ x ∈ e.2.1, x ∈ r := by
   induction hr with
-  | init => simp [start]
+  | init => simp [startAt]
   | @step q q' l hprev hc hs ih =>
     have hI := reach_inv hpre hrc hprev
-    have hA := reach_A hpre hrc hprev
+    have hA := reach_A_from (inv_startAt fb pre rc nn att hpre hrc) (A_startAt pre rc nn att) hprev
     have horig : ∀ j, j ∈ q.s.known → q'.orig j = q.orig j := by
       intro j hj
       rcases step_orig hs with h | ⟨id', _, _, _, _, h, _, hnk, _⟩
@@ -231,7 +231,7 @@ theorem handed_within_accepted (hpre : (pre.map (·.1)).Nodup) (hrc : ∀ id ∈
       rcases he with rfl | he
       · obtain ⟨hrs, _⟩ := handoff_is_for_the_unsettled hpre hrc hprev hc hs id rs a hnew
         -- the new entry: its recipients are the outstanding ones, and those are among the accepted ones (the ledger)
-        have hknown' : id ∈ q'.s.known := (reach_A hpre hrc (Reach.step hprev hc hs)).knownH (id, rs, a) (by rw [hnew]; simp)
+        have hknown' : id ∈ q'.s.known := (reach_A_from (inv_startAt fb pre rc nn att hpre hrc) (A_startAt pre rc nn att) (Reach.step hprev hc hs)).knownH (id, rs, a) (by rw [hnew]; simp)
         by_cases hst : id ∈ sIds q.s
         · obtain ⟨r, ho⟩ := Option.isSome_iff_exists.mp (hI.led.orig id hst)
           refine ⟨r, ?_, ?_⟩
@@ -277,11 +277,11 @@ theorem handed_within_accepted (hpre : (pre.map (·.1)).Nodup) (hrc : ∀ id ∈
 
 /-- **After a restart nobody the storage shows as delivered is attempted again** (C03 ∘ C04): start the queue machine on what a fresh
     `DiskStorage` recovers from any directories (`C04.loadOf`, `C04.rcptsOf`: the pickled recipients with the delivered rounds
-    replayed). In every state the restarted queue reaches, every hand-off of a recovered message is for recipients the storage still
+    replayed; `C04.attOf`: the stored attempt counters). In every state the restarted queue reaches, every hand-off of a recovered message is for recipients the storage still
     listed — a recipient whose delivery was recorded before the crash is in none of them. -/
 theorem restart_never_reattempts_delivered (fs : DiskFS.FS) (ids : List Nat) (hnd : ids.Nodup) (envOf : Nat → List Nat)
     (henv : ∀ e, (envOf e).Nodup) (id : Nat) (hid : id ∈ (C04.loadOf fs ids).map (·.1)) {q : State}
-    (hr : Reach fb (start (C04.loadOf fs ids) (C04.rcptsOf envOf fs) nn) q) :
+    (hr : Reach fb (startAt (C04.loadOf fs ids) (C04.rcptsOf envOf fs) nn (C04.attOf fs)) q) :
     ∀ e ∈ q.handed, e.1 = id → ∀ x ∈ e.2.1, x ∈ C04.rcptsOf envOf fs id := by
   have hpre := C04.loadOf_nodup fs ids hnd
   have hrc : ∀ i ∈ (C04.loadOf fs ids).map (·.1), (C04.rcptsOf envOf fs i).Nodup := by
@@ -293,13 +293,13 @@ theorem restart_never_reattempts_delivered (fs : DiskFS.FS) (ids : List Nat) (hn
   intro e he heid x hx
   obtain ⟨r, ho, hsub⟩ := handed_within_accepted hpre hrc hr e he
   obtain ⟨ls, hT⟩ := hr.trace
-  have h0 : (start (C04.loadOf fs ids) (C04.rcptsOf envOf fs) nn).orig id = some (C04.rcptsOf envOf fs id) := by
+  have h0 : (startAt (C04.loadOf fs ids) (C04.rcptsOf envOf fs) nn (C04.attOf fs)).orig id = some (C04.rcptsOf envOf fs id) := by
     have hc : ((C04.loadOf fs ids).map (·.1)).contains id = true := List.contains_iff_mem.mpr hid
     show (if ((C04.loadOf fs ids).map (·.1)).contains id then some (C04.rcptsOf envOf fs id) else none) = _
     rw [if_pos hc]
-  have horig := (orig_of_start hT (inv_start fb _ _ nn hpre hrc) h0 (Or.inl (by
-    show id ∈ sIds (start (C04.loadOf fs ids) (C04.rcptsOf envOf fs) nn).s
-    simpa [start, sIds] using hid))).1
+  have horig := (orig_of_start hT (inv_startAt fb _ _ nn _ hpre hrc) h0 (Or.inl (by
+    show id ∈ sIds (startAt (C04.loadOf fs ids) (C04.rcptsOf envOf fs) nn (C04.attOf fs)).s
+    simpa [startAt, sIds] using hid))).1
   rw [heid, horig] at ho
   simp only [Option.some.injEq] at ho
   rw [ho]; exact hsub x hx
